@@ -632,11 +632,22 @@ def rule_r5(chk, p, t):
                 if unparse(c.func.value) in ("obs_list", "missed_observation_list") and c.args and concerns_target(c.args[0]):
                     primary_nodes.add(n.id)
         require(primary_nodes, "no append concerning the tasked target found", col.node)
+        # a record may also be handed back directly: `return [], [MissedObservation(...)], ...` - the literal lists in
+        # the observation / miss slots of a return count like appends on that path
+        ret_records = {}
+        for n in cfg.nodes:
+            if n.kind == "return" and n.ast is not None and isinstance(n.ast.value, ast.Tuple) and len(n.ast.value.elts) >= 2:
+                k = 0
+                for slot in n.ast.value.elts[:2]:
+                    if isinstance(slot, ast.List):
+                        k += sum(1 for x in slot.elts if concerns_target(x))
+                if k:
+                    ret_records[n.id] = k
         paths = cfg.paths(targets=[cfg.exit.id])
         r.paths_enumerated += len(paths)
         counts = {}
         for path in paths:
-            c = sum(1 for nid, _ in path if nid in primary_nodes)
+            c = sum(1 for nid, _ in path if nid in primary_nodes) + sum(ret_records.get(nid, 0) for nid, _ in path)
             counts.setdefault(c, []).append(path)
         bad = {c: ps for c, ps in counts.items() if c != 1}
         if bad:
@@ -646,8 +657,16 @@ def rule_r5(chk, p, t):
         else:
             r.ok(col.qualname, f"{len(paths)} paths, each appends exactly one record of the tasked target", col.loc())
         # observation vs miss decided by the reason of the attempt
-        conds = [n for n in cfg.nodes if n.kind == "cond" and "reason" in unparse(n.ast)]
-        ok = any(unparse(n.ast) in ("observation.reason == Explanation.VISIBLE", "isinstance(observation, Observation)") for n in conds)
+        conds = [n for n in cfg.nodes if n.kind == "cond" and ("reason" in unparse(n.ast) or "isinstance" in unparse(n.ast))]
+        # the tested object is the primary attempt itself, whatever the local is called
+        def is_split(tst):
+            if isinstance(tst, ast.Compare) and len(tst.ops) == 1 and isinstance(tst.ops[0], ast.Eq) and isinstance(tst.left, ast.Attribute) and tst.left.attr == "reason" and unparse(tst.comparators[0]) == "Explanation.VISIBLE":
+                return concerns_target(tst.left.value)
+            if isinstance(tst, ast.Call) and call_name(tst) == "isinstance" and len(tst.args) == 2 and unparse(tst.args[1]) == "Observation":
+                return concerns_target(tst.args[0])
+            return False
+
+        ok = any(is_split(n.ast) for n in conds)
         if ok:
             r.ok(col.qualname + ":split", "attempt goes to the observation list iff it is visible", col.loc())
         else:
@@ -671,7 +690,10 @@ def rule_r6(chk, p, t):
         vals = [c for c in walk_no_nested(w.node) if isinstance(c, ast.Call) and isinstance(c.func, ast.Attribute) and c.func.attr == "values" and "target_handles" in unparse(c.func.value)]
         require(len(vals) == 1, "worker does not read target_handles.values() exactly once", w.node)
         good = [d for d in dels if "target_handles" in unparse(d) and "simulation_id" in unparse(d)]
-        if good and good[0].lineno < vals[0].lineno:
+        # `handles.pop(id)` looks the primary up and removes it in one step
+        pops = [c for c in walk_no_nested(w.node) if isinstance(c, ast.Call) and isinstance(c.func, ast.Attribute) and c.func.attr == "pop" and "target_handles" in unparse(c.func.value) and c.args and "simulation_id" in unparse(c.args[0])]
+        good = good + pops
+        if good and min(g.lineno for g in good) < vals[0].lineno:
             r.ok(w.qualname + ":exclude-primary", "primary handle deleted before the background list is built", w.loc(good[0]))
         else:
             r.violation(w.qualname + ":exclude-primary", "primary-in-background", "the background target list is built before (or without) removing the primary target: the primary can be reported twice", w.loc(vals[0]))
@@ -687,7 +709,7 @@ def rule_r6(chk, p, t):
         else:
             r.violation(w.qualname + ":args", f"args:{args}", f"collectObservations is called with {args}", w.loc(co[0]))
         ph = defs.get("primary_tgt_handle")
-        if ph is not None and unparse(ph) == "submission.target_handles[estimate_agent.simulation_id]":
+        if ph is not None and unparse(ph) in ("submission.target_handles[estimate_agent.simulation_id]", "submission.target_handles.pop(estimate_agent.simulation_id)"):
             r.ok(w.qualname + ":primary", "primary = the target with the tasked estimate's id", w.loc())
         else:
             r.violation(w.qualname + ":primary", f"primary:{unparse(ph) if ph is not None else None}", "the primary target is not target_handles[estimate.simulation_id]", w.loc())
